@@ -270,7 +270,54 @@ func (f *shFix) paths() []shPath {
 	return shMethPaths("sf")
 }
 
-func (f *shFix) cells() []shCell {
+// round 8: the CALLABLE KIND the accessing code sits in. The rule judges the class where the code is WRITTEN, so
+// the outcome of a cell must not depend on how that code came to run: an ordinary method (inst), a static method,
+// a generator method whose body runs after the call returned (the access behind the first `yield` / before the
+// last one), a closure created in a method (called inside it: closure; returned and called after the method
+// returned: defer; an arrow function), the method entered through a callable array held in a variable.
+// Each of these enters the interpreter through a path of its own (ClassMethod.Call's early return for generators,
+// LambdaExpression.Call, call_user_func …) and each path has to establish the scope class itself.
+// Not here: `call_user_func([$s, "m"], …)` from outside a class panics inside the interpreter (a crash, not a
+// visibility decision), and a first-class callable `$s->m(...)` / a callable array handed to a native function run
+// without / in the CALLER's class context — fixed programs of the scope stream (scope.go) carry those.
+var shExtraKinds = []string{"gen", "genafter", "static", "defer", "arrow", "carray"}
+
+func shKindApplies(k string, p shPath) bool {
+	three := p.Name == "propRead" || p.Name == "propWrite" || p.Name == "methCall"
+	switch k {
+	case "gen", "genafter":
+		return p.Name != "iterate" // straight-line bodies only: `yield` inside the interpreter's loops is not C07's business
+	case "arrow":
+		return p.Name == "propRead" || p.Name == "methCall" // bodies that are one expression
+	case "static":
+		return three || p.Name == "dynMeth" || p.Name == "dynPropRead"
+	}
+	return three
+}
+
+// shEntry: the entry path of the interpreter a kind goes through (Model.ScopeEntry, Generated.C07Access.entryPaths)
+func shEntry(k string) string {
+	switch k {
+	case "gen", "genafter":
+		return "generator"
+	case "closure", "defer", "arrow":
+		return "closure"
+	}
+	return "body"
+}
+
+// genBody: the straight-line body `…; return E;` as a generator body. No `return` (origami's generators leak it
+// into the consumer's loop) and no loop around a `yield`.
+func genBody(body string, after bool) string {
+	i := strings.LastIndex(body, "return ")
+	b := body[:i] + "yield " + body[i+len("return "):]
+	if after {
+		return b + " yield \"post\";"
+	}
+	return "yield \"pre\"; " + b
+}
+
+func (f *shFix) cells(extra map[string]bool) []shCell {
 	var out []shCell
 	for scope := -1; scope <= f.n; scope++ {
 		for r := 0; r < f.n; r++ {
@@ -284,9 +331,16 @@ func (f *shFix) cells() []shCell {
 				} else if p.Name == "propRead" || p.Name == "propWrite" || p.Name == "methCall" {
 					kinds = append(kinds, "closure")
 				}
+				if scope >= 0 {
+					for _, k := range shExtraKinds {
+						if (extra == nil || extra[k]) && shKindApplies(k, p) {
+							kinds = append(kinds, k)
+						}
+					}
+				}
 				for _, k := range kinds {
 					out = append(out, shCell{Scope: scope, Kind: k, Recv: "o", R: r, Path: p})
-					if f.anc(scope, r) && p.Name != "unsetIdx" {
+					if f.anc(scope, r) && p.Name != "unsetIdx" && k != "static" {
 						// code of class `scope` running on an object of class r (inherited method): `$this`
 						out = append(out, shCell{Scope: scope, Kind: k, Recv: "this", R: r, Path: p})
 					}
@@ -329,6 +383,17 @@ func (f *shFix) script(cells []shCell) string {
 			per[c.Scope] = append(per[c.Scope], fmt.Sprintf("  public function %s($o) { %s }\n", c.method(), body))
 		case "closure":
 			per[c.Scope] = append(per[c.Scope], fmt.Sprintf("  public function %s($o) { $g = function() use ($o) { %s }; return $g(); }\n", c.method(), body))
+		case "carray":
+			per[c.Scope] = append(per[c.Scope], fmt.Sprintf("  public function %s($o) { %s }\n", c.method(), body))
+		case "static":
+			per[c.Scope] = append(per[c.Scope], fmt.Sprintf("  public static function %s($o) { %s }\n", c.method(), body))
+		case "gen", "genafter":
+			per[c.Scope] = append(per[c.Scope], fmt.Sprintf("  public function %s($o) { %s }\n", c.method(), genBody(body, c.Kind == "genafter")))
+		case "defer":
+			per[c.Scope] = append(per[c.Scope], fmt.Sprintf("  public function %s($o) { return function() use ($o) { %s }; }\n", c.method(), body))
+		case "arrow":
+			e := strings.TrimSuffix(strings.TrimPrefix(body, "return "), ";")
+			per[c.Scope] = append(per[c.Scope], fmt.Sprintf("  public function %s($o) { $g = fn() => %s; return $g(); }\n", c.method(), e))
 		}
 	}
 	for i := 0; i <= f.n; i++ {
@@ -356,16 +421,32 @@ func (f *shFix) script(cells []shCell) string {
 	for _, fn := range funcs {
 		sb.WriteString(fn)
 	}
+	// the generator's body runs here, after the call that created it returned; a closure handed back is called here
+	fmt.Fprintf(&sb, "function drain%s($g) { $r = null; foreach ($g as $v) { if ($v !== \"pre\" && $v !== \"post\") { $r = $v; } } return $r; }\nfunction later%s($g) { return $g(); }\n", t, t)
 	fmt.Fprintf(&sb, "function st%s($o) { return json_encode($o) . \"|\" . Cn%s::$n; }\n", t, t)
 	fmt.Fprintf(&sb, "function cell%s($id, $f, $o) {\n  $b = st%s($o);\n  try { $v = $f(); $r = \"ok=\" . (is_scalar($v) ? $v : \"?\"); } catch (\\Throwable $e) { $r = \"denied=\" . get_class($e); }\n  echo \"\\n#\", $id, \" ## \", $r, \" ## \", $b, \" ## \", st%s($o), \"\\n\";\n}\n", t, t, t)
 	for _, c := range cells {
-		switch {
-		case c.Kind == "func":
-			fmt.Fprintf(&sb, "$o = new %s();\ncell%s(%d, fn() => %s%s($o), $o);\n", f.cls(c.R), t, c.ID, c.method(), t)
-		case c.Recv == "this":
-			fmt.Fprintf(&sb, "$o = new %s();\ncell%s(%d, fn() => $o->%s(null), $o);\n", f.cls(c.R), t, c.ID, c.method())
-		default:
-			fmt.Fprintf(&sb, "$s = new %s(); $o = new %s();\ncell%s(%d, fn() => $s->%s($o), $o);\n", f.cls(c.Scope), f.cls(c.R), t, c.ID, c.method())
+		on, arg := "$s", "$o"
+		if c.Recv == "this" {
+			on, arg = "$o", "null"
+		}
+		call := fmt.Sprintf("fn() => %s->%s(%s)", on, c.method(), arg)
+		switch c.Kind {
+		case "func":
+			call = fmt.Sprintf("fn() => %s%s($o)", c.method(), t)
+		case "static":
+			call = fmt.Sprintf("fn() => %s::%s($o)", f.cls(c.Scope), c.method())
+		case "gen", "genafter":
+			call = fmt.Sprintf("fn() => drain%s(%s->%s(%s))", t, on, c.method(), arg)
+		case "defer":
+			call = fmt.Sprintf("fn() => later%s(%s->%s(%s))", t, on, c.method(), arg)
+		case "carray":
+			call = fmt.Sprintf("function() use ($s, $o) { $f = [%s, \"%s\"]; return $f(%s); }", on, c.method(), arg)
+		}
+		if c.Kind == "func" || c.Recv == "this" {
+			fmt.Fprintf(&sb, "$s = null; $o = new %s();\ncell%s(%d, %s, $o);\n", f.cls(c.R), t, c.ID, call)
+		} else {
+			fmt.Fprintf(&sb, "$s = new %s(); $o = new %s();\ncell%s(%d, %s, $o);\n", f.cls(c.Scope), f.cls(c.R), t, c.ID, call)
 		}
 	}
 	return sb.String()
@@ -388,12 +469,18 @@ func (f *shFix) modelLine(c shCell) string {
 	if c.Scope >= 0 {
 		scope = strconv.Itoa(c.Scope + 1)
 	}
-	return strings.Join([]string{"shadow", strings.Join(hs, ";"), strings.Join(ds, ","), scope, strconv.Itoa(c.R + 1)}, "\t")
+	// round 8: the entry path the code came to run through, and the runtime class of `$this` in that context (what
+	// scopeClassOf falls back to when the path did not record the class of the code)
+	runtime := scope
+	if c.Recv == "this" {
+		runtime = strconv.Itoa(c.R + 1)
+	}
+	return strings.Join([]string{"shadow", strings.Join(hs, ";"), strings.Join(ds, ","), scope, strconv.Itoa(c.R + 1), shEntry(c.Kind), runtime}, "\t")
 }
 
-func runShadowFixture(c *vh.Ctx, m *vh.Model, cs ShadowCase) {
+func runShadowFixture(c *vh.Ctx, m *vh.Model, cs ShadowCase, extra map[string]bool) {
 	f := newShFix(cs)
-	cells := f.cells()
+	cells := f.cells(extra)
 	if cs.Cell != "" {
 		var sel []shCell
 		for _, x := range cells {
@@ -440,6 +527,15 @@ func runShadowFixture(c *vh.Ctx, m *vh.Model, cs ShadowCase) {
 			ans = nil
 		}
 	}
+	// round 8: the outcome of the same (scope, receiver, path) cell through an ordinary method
+	instRes := map[string]string{}
+	for _, x := range cells {
+		if x.Kind == "inst" {
+			if g := got[x.ID]; g != nil {
+				instRes[fmt.Sprintf("%d/%s/%d/%s", x.Scope, x.Recv, x.R, x.Path.Name)] = g[0]
+			}
+		}
+	}
 	for i, x := range cells {
 		cas := cs
 		cas.Cell = x.key()
@@ -452,6 +548,11 @@ func runShadowFixture(c *vh.Ctx, m *vh.Model, cs ShadowCase) {
 		}
 		if x.Kind == "closure" {
 			pathName += "/closure"
+		}
+		newKind := x.Kind != "inst" && x.Kind != "closure" && x.Kind != "func"
+		c.Hit("shadow:kind:" + x.Kind)
+		if x.Recv == "this" && x.R != x.Scope {
+			c.Hit("shadow:kind-inherited:" + x.Kind)
 		}
 		shadowing := x.Scope >= 0 && x.Scope < f.n && f.cs.Decl[x.Scope] != "" && x.Scope != d
 		c.Eval(fmt.Sprintf("shadow/%s/%v%v/%s", cs.Member, cs.Par, cs.Decl, x.key()), mod != "pub")
@@ -475,6 +576,19 @@ func runShadowFixture(c *vh.Ctx, m *vh.Model, cs ShadowCase) {
 			continue
 		}
 		res, before, after := g[0], g[1], g[2]
+		if newKind {
+			// judged by the same rule whatever the callable kind: the same signatures as the ordinary method when
+			// the outcome is the same (a known finding does not depend on the kind), kind-specific ones otherwise
+			base, have := instRes[fmt.Sprintf("%d/%s/%d/%s", x.Scope, x.Recv, x.R, x.Path.Name)]
+			if have && base != res {
+				pathName += "/" + x.Kind
+				viol(c, fmt.Sprintf("shadow:kind-dependent:%s:%s:%s", pathName, mod, rel),
+					fmt.Sprintf("the same access by code of the same class on the same receiver is decided differently in a %s than in an ordinary method (%s vs %s) — member %s, declarations %v, code of %s, receiver %s object of %s",
+						x.Kind, res, base, cs.Member, cs.Decl, scopeName(f, x.Scope), x.Recv, f.cls(x.R)), cas)
+			} else if !have {
+				pathName += "/" + x.Kind
+			}
+		}
 		isOK := strings.HasPrefix(res, "ok=")
 		allowed := f.shadowAllowed(x.Scope, x.R)
 		c.Hit("shadow:outcome:" + strings.SplitN(res, "=", 2)[0])
@@ -562,10 +676,22 @@ var shTrees = [][]int{
 // sample in quick.
 func runShadow(c *vh.Ctx, m *vh.Model, tag string, only *ShadowCase) {
 	if only != nil {
-		runShadowFixture(c, m, *only)
+		runShadowFixture(c, m, *only, nil)
 		return
 	}
 	k := 0
+	// round 8: callable kinds per fixture — the generator method always, in quick two more kinds drawn per fixture
+	// (several hundred fixtures: every kind meets every declaration pattern many times), all of them in thorough
+	kindsOf := func() map[string]bool {
+		if c.N(0, 1) == 1 {
+			return nil
+		}
+		e := map[string]bool{"gen": true}
+		for len(e) < 3 {
+			e[shExtraKinds[c.Rand.Intn(len(shExtraKinds))]] = true
+		}
+		return e
+	}
 	// round 7: small TREES — a root with two branches, the branches extended, a fork below a chain — so that
 	// scope and receiver can be SIBLINGS under an ancestor that declares the name too. Three classes completely;
 	// the larger shapes completely in the thorough tier, a seeded sample in quick.
@@ -587,7 +713,7 @@ func runShadow(c *vh.Ctx, m *vh.Model, tag string, only *ShadowCase) {
 					continue
 				}
 				k++
-				runShadowFixture(c, m, ShadowCase{Kind: "shadow", Tag: fmt.Sprintf("%st%d", tag, k), Decl: d, Par: par, Member: member})
+				runShadowFixture(c, m, ShadowCase{Kind: "shadow", Tag: fmt.Sprintf("%st%d", tag, k), Decl: d, Par: par, Member: member}, kindsOf())
 			}
 		}
 	}
@@ -605,7 +731,7 @@ func runShadow(c *vh.Ctx, m *vh.Model, tag string, only *ShadowCase) {
 					continue
 				}
 				k++
-				runShadowFixture(c, m, ShadowCase{Kind: "shadow", Tag: fmt.Sprintf("%s%d", tag, k), Decl: d, Member: member})
+				runShadowFixture(c, m, ShadowCase{Kind: "shadow", Tag: fmt.Sprintf("%s%d", tag, k), Decl: d, Member: member}, kindsOf())
 			}
 		}
 	}
